@@ -276,14 +276,24 @@ claim('C15', 'proof',
       'parameters is left to the oracle over every rotation.',
       'DESIGN.md 4 C15')
 claim('C18', 'proof',
-      'Lean 4 theorems on a literal model of join_segments/_group_vertices (fuel-indexed loops, invariants) + model/code correspondence; multiset oracle on the real code',
+      'Lean 4 theorems on literal models of join_segments/_group_vertices and of the outline pipeline (T-junction insertion, naked-edge selection, hole grouping, join_coplanar_faces) + model/code correspondence stage by stage; exact cell-set oracle on the real code',
       'Model/JoinSegments transcribes the chain builder for any point type and any equivalence '
       'test. Proved for every segment soup, order and orientation: the chain edges are in '
       'one-to-one correspondence with the input segments (multiset equality in the exact case), '
       'every chain has >= 2 vertices that are input end points, total length is preserved, no '
-      'two chains have equivalent ends left (maximality), and the fuel bound is never reached.',
-      'Trusted: Lean kernel, harness, model correspondence. Tolerance-equivalence is abstract '
-      '(no transitivity assumed).',
+      'two chains have equivalent ends left (maximality), and the fuel bound is never reached. '
+      'Model/JoinOutline transcribes _insert_updates_in_order, intersect_polygon_segments, the '
+      'naked-edge selection of joined_intersected_boundary (vertex classes by first equivalent '
+      'vertex, edge counters), merge_faces_to_holes and join_coplanar_faces on top of generated '
+      'kernels: inserted points form a block sorted by distance for any update order and start '
+      'vertex; polygons keep their vertices, order and shoelace sum; an edge is kept iff its '
+      'undirected multiplicity is one; shared edges cancel, so the returned loops carry the '
+      'total shoelace sum of the tiles (edge-to-edge, no pinch vertex, all chains closed); '
+      'grouping equals the proved even-odd grouping; boundary and holes of a face enter as '
+      'separate loops.',
+      'Trusted: Lean kernel, py2lean, harness, model correspondence. Tolerance-equivalence is '
+      'abstract (no transitivity assumed). Not proved: that all chains of an edge-to-edge tiling '
+      'come back closed; polygon containment is a parameter of the grouping theorems.',
       'DESIGN.md 4 C18')
 claim('C19', 'proof',
       'Lean 4 theorems on generated scale kernels and literal models of perimeter/core quads and offset vertices + model/code correspondence; exact oracle on the real code',
